@@ -1155,6 +1155,11 @@ impl<'r> DocGen<'r> {
         }
     }
 
+    /// text of one value in a random spelling
+    pub fn render_value_public(&mut self, v: &RVal) -> String {
+        self.render_value(v, 0).0
+    }
+
     fn array_gap(&mut self, t: &mut String, multiline: bool) {
         let w = self.ws(false);
         t.push_str(&w);
